@@ -153,22 +153,20 @@ def r_twf64(F, cfg):
             else:
                 R.violation("twf64:re-im", b.where(n), "twiddle is assembled as re=%s, im=%s (expected re=cos, im=sin)" % tuple(parts[:2]))
     # match direction: Forward -> identity, Inverse -> conj
-    from .tables import find_switch_on_discr, arms, region_of
-    sw = find_switch_on_discr(F, b, 3)
-    if sw is None:
+    from .tables import direction_selectors, region_of
+    sels = [x for x in direction_selectors(F, b) if b.root(x[1]) == ("param", 3)]
+    if not sels:
         R.violation("twf64:direction", b.where(), "compute_twiddle does not branch on its direction parameter")
     else:
-        arm_list, other = arms(b, sw)
         tab = {}
-        for vals, tgt in arm_list:
+        for v, tgt in sels[0][2].items():
             reg = region_of(b, tgt)
             conj = any((F.callee_of(t) or {}).get("p", "").endswith("Complex::<T>::conj") for x in reg for t in [b.blocks[x]["t"]] if t["k"] == "call")
-            for v in vals:
-                tab[v] = "conj" if conj else "identity"
-        if tab != {0: "identity", 1: "conj"}:
+            tab[v] = "conj" if conj else "identity"
+        if tab != {"Forward": "identity", "Inverse": "conj"}:
             R.violation("twf64:direction-table", b.where(), "direction table is %s, expected Forward->identity, Inverse->conj" % tab)
         else:
-            R.ok({"direction_table": {"Forward": "identity", "Inverse": "conj"}}, nontrivial=True)
+            R.ok({"direction_table": tab}, nontrivial=True)
     R.metric("trig_calls", len(trig))
     # who-may-call: trigonometric/exponential evaluation happens nowhere else in the crate, so every
     # twiddle factor of every algorithm comes out of the function checked above
